@@ -163,6 +163,22 @@ func (g *ackrGen) structured(maxBlocks int) ([]ackrEntry, []ackrRng) {
 		}
 		off += n
 	}
+	// gap ranges queued more than once: a gap acknowledgement requeued after a retriable error and the gap of a
+	// re-acquisition of the same offsets (same range, later epoch), or an overlapping hole of the same type
+	if len(gaps) > 0 && r.Chance(25) {
+		for k := 1 + r.Intn(2); k > 0; k-- {
+			d := gaps[r.Intn(len(gaps))]
+			d.Epoch += int32(r.Range(0, 2))
+			switch r.Intn(3) {
+			case 0: // the same range again
+			case 1: // a longer range from the same start (may run into a following hole of another type: then compared, not judged)
+				d.Last += r.Range(1, 3)
+			default: // a sub-range
+				d.First += r.Range(0, d.Last-d.First)
+			}
+			gaps = append(gaps, d)
+		}
+	}
 	// arrival order: entries in ack-call order (shuffled with probability), gaps in response order
 	switch r.Intn(4) {
 	case 0:
@@ -481,6 +497,13 @@ func runAckr(_ *testing.T, t []string) string {
 			hx.St.Inc("build.entries." + ackrBucket(len(es)))
 			hx.St.Inc("build.gaps." + ackrBucket(len(gaps)))
 			hx.St.Inc("build.out." + ackrBucket(len(out)))
+			for i := range gaps {
+				for j := i + 1; j < len(gaps); j++ {
+					if gaps[i].First <= gaps[j].Last && gaps[j].First <= gaps[i].Last {
+						hx.St.Inc("build.gaps.overlapping-pair")
+					}
+				}
+			}
 			if hr {
 				hx.St.Inc("build.hasRenew")
 			}
